@@ -292,11 +292,31 @@ func c03Run(e *Env) {
 		}
 	}
 
+	var collided [][]byte // forged tokens that share their CRC-64 with the token of a request
 	checkReturn := func(r *c03Req) {
 		resp, err := r.call.Result()
 		if err == nil {
 			if resp == nil {
 				e.Violate("C03.R1", "nil-success", "request n=%d returned success without a response", r.nonce)
+				return
+			}
+			viaChecksum := false
+			for _, ct := range collided {
+				if bytes.Equal(resp.Token, ct) {
+					viaChecksum = true // the forged answer whose token has the same CRC-64 as this request's token
+				}
+			}
+			if viaChecksum {
+				e.Violate("C03.R1", "foreign-token-returned:token-tables-keyed-by-checksum", "request n=%d (token %x) returned a response with token %x: a different token with the same CRC-64", r.nonce, r.token, resp.Token)
+				completedTokens = append(completedTokens, r.token)
+				// (one finding, reported once: the genuine answer to this request is withdrawn, it would only meet the
+				// token's next user)
+				r.respQueued = true
+				for _, it := range w.Outbox {
+					if it.M != nil && bytes.Equal(it.M.Token, r.token) && it.M.Code >= 0x40 {
+						it.Gone = true
+					}
+				}
 				return
 			}
 			if !bytes.Equal(resp.Token, r.token) {
@@ -464,6 +484,20 @@ func c03Run(e *Env) {
 					if outstanding(o) && o.atPeer && o.kind != 3 {
 						fm = &WMsg{Type: TNON, Code: 0x5f, MID: fm.MID, Token: o.token, Opts: []WOpt{UintOpt(OptBlock2, BlockOpt(0, true, 0))}}
 						label = "forged(2.31 with a block option for an outstanding token)"
+						break
+					}
+				}
+			}
+			if t.Chance(1, 4) {
+				// the one 8-byte token that has the same CRC-64 as the (shorter, caller-chosen) token of an outstanding request
+				for _, o := range reqs {
+					if outstanding(o) && o.atPeer && o.kind == 2 && len(o.token) < 8 {
+						if ct := collidingToken(o.token); ct != nil {
+							collided = append(collided, ct)
+							fm = &WMsg{Type: TNON, Code: 0x45, MID: fm.MID, Token: ct, Payload: []byte("forged")}
+							label = fmt.Sprintf("forged(token with the checksum of %x)", o.token)
+							e.Probe("forged.tokenWithTheSameChecksum")
+						}
 						break
 					}
 				}
